@@ -62,6 +62,8 @@ def seq_worker(job):
                 g = {"mixed": rng.choice(gapset + [rng.randrange(0, 3 * d + 1)]), "burst": rng.choice([0, 0, 0, 1]),
                      "slow": rng.randrange(d, 5 * d + 1), "edge": rng.choice([d - 1, d, d + 1, 0])}[mode]
                 ts = r + max(0, g)
+            if len(res.setdefault("samples", [])) < 1:
+                res["samples"].append({"rps": rps, "interval_ns": d, "mode": mode, "first_releases_ns": rel[:6]})
             w = window_ok(rel, d, K=None if n <= 1000 else 64)
             if w:
                 i, j = w
@@ -154,11 +156,15 @@ def session_worker(job):
     arrivals = []
     mib = mibagent.Mib([((1, 3, 6, 1, 4, 1, 9, k), B.enc_int(k), k) for k in range(1, 40)])
 
+    mute = {"on": False}
+
     def handler(agent, req):
         def f(req):
             if not req.ok:
                 return None
             arrivals.append(clock["now"])
+            if mute["on"]:
+                return None
             return mibagent.answer(mib, req, agent, 5)
         return agent.discovery_or(req, f)
     agent = rigp.Agent(handler, users=[cfg.user_keys()]).start()
@@ -183,18 +189,34 @@ def session_worker(job):
                 res["inconclusive"].append("timeout (load)")
                 break
             clock["now"] += rng.choice([0, 0, 1, d // 2, d - 1, d, d + 1, 3 * d, rng.randrange(0, 2 * d + 1)])
+        def judge(rel, label):
+            # rounding: each virtual sleep converts ns -> float seconds -> ns (<= 1 ns each)
+            n = len(rel)
+            for k in range(1, min(n - 1, 40) + 1):
+                for i in range(0, n - k):
+                    if not rel[i + k] - rel[i] > (k - 1) * d - (k + 1):
+                        if len(res["bad"]) < 20:
+                            res["bad"].append({"sig": "arrivals:%s%s" % (cfg.client, label), "msg": "[%s rps=%r%s] agent saw requests %d..%d within %d ns; %d intervals of %d ns are required" % (
+                                cfg.key(), rps, label, i, i + k, rel[i + k] - rel[i], k - 1, d)})
+                        return
         res["requests"] += len(arrivals)
         res["sessions"] += 1
-        # rounding: each virtual sleep converts ns -> float seconds -> ns (<= 1 ns each)
-        rel = list(arrivals)
-        n = len(rel)
-        for k in range(1, min(n - 1, 40) + 1):
-            for i in range(0, n - k):
-                if not rel[i + k] - rel[i] > (k - 1) * d - (k + 1):
-                    if len(res["bad"]) < 20:
-                        res["bad"].append({"sig": "arrivals:%s" % cfg.client, "msg": "[%s rps=%r] agent saw requests %d..%d within %d ns; %d intervals of %d ns are required" % (
-                            cfg.key(), rps, i, i + k, rel[i + k] - rel[i], k - 1, d)})
-                    break
+        judge(list(arrivals), "")
+        # a phase with a silent agent: every request times out (real 30 ms); the virtual clock only moves by
+        # what the policer sleeps - requests must still be spaced by the interval
+        drv.close()
+        drv = driver.Driver(cfg, agent, timeout=0.03, limit_rps=rps).create()
+        drv.call("open")
+        arrivals.clear()
+        mute["on"] = True
+        for i in range(8):
+            drv.call(rng.choice(["get", "getnext", "fetch"]), "1.3.6.1.4.1.9.3")
+        import time as _t
+        _t.sleep(0.05)
+        mute["on"] = False
+        res["ops"]["silent_phase"] = res["ops"].get("silent_phase", 0) + len(arrivals)
+        res["requests"] += len(arrivals)
+        judge(list(arrivals), " silent-agent phase")
         drv.close()
     asyncio.sleep = real_asleep
     agent.stop()
@@ -225,6 +247,8 @@ def main():
             raise runner.HarnessError("seq worker failed: %s" % (o["stderr"][-300:] if res is None else res["harness_error"]))
         st["sequences"] += res["sequences"]
         st["calls"] += res["calls"]
+        for x in res.get("samples", [])[:1]:
+            chk.sample(x, limit=4)
         for c in res["classes"]:
             chk.distinct.add(c)
         for b in res["bad"]:
@@ -276,7 +300,6 @@ def main():
     chk.extra["exhaustive_part"] = "phase space (phase, gap) for intervals 1,2,3,7,10,64 ns"
     chk.extra["states"] = st["phase_states"]
     chk.extra["transitions"] = st["phase_transitions"]
-    chk.sample({"rps": 10, "call_times_ns": [0, 0, 0, 250000000], "releases_ns": [0, 100000000, 200000000, 300000000]})
     chk.floor("session_requests", st["session_requests"], 1000)
     sys.exit(chk.finish())
 
